@@ -307,3 +307,41 @@ func VfC04_TrafficDuringSilentRefresh() {
 	nd.Quiesce()
 	nd.Assert(refreshed, "the waiting refresh ends when the upstream stops")
 }
+
+// VfC12_EvalAfterClusterDown: EVAL is routed by its first key (argument 3), also on every later
+// transmission of the same request: the owner of the key's slot answers CLUSTERDOWN (a failover is
+// going on); whatever the proxy sends for that request afterwards (it may answer the client with
+// the error, or try again) goes to the node owning the slot of the EVAL's key, never to the node
+// that the script text or another argument would hash to.
+func VfC12_EvalAfterClusterDown() {
+	nd.ConcreteClock(true)
+	a, b := "10.0.0.1:7000", "10.0.0.2:7000"
+	p, clients := vfNewProc(nil, a, b)
+	for _, c := range clients {
+		c.onRedirection = p.u.handleRedirection
+		c.onClusterDown = p.u.handleClusterDown
+	}
+	key, script := "k596", "return {1}" // the key's slot is 0
+	for i := range p.u.slots {
+		p.u.slots[i] = &instance{Addr: b} // every other slot (also the script text's) belongs to b
+	}
+	p.u.slots[vfSlotOf(key)] = &instance{Addr: a}
+	nd.Assert(vfSlotOf(script) != vfSlotOf(key), "harness: script and key hash to different slots")
+	raw := newRawRequest(newStringArray("eval", script, "1", key))
+	nd.PanicLabel("eval-after-clusterdown")
+	p.handleRequest(raw)
+	first := vfTake(clients[a])
+	nd.Assert(first != nil && vfTake(clients[b]) == nil, "EVAL goes to the node owning the slot of its key")
+	if first == nil {
+		return
+	}
+	clients[a].handleResp(first, newError("CLUSTERDOWN The cluster is down"))
+	nd.Quiesce() // a retry, if any, happens now
+	nd.Assert(vfTake(clients[b]) == nil, "a later transmission of an EVAL goes to the owner of its key's slot, not where another argument hashes to")
+	if again := vfTake(clients[a]); again != nil {
+		nd.Cover("retried")
+		again.SetResponse(newInteger(1))
+	}
+	nd.Assert(vfDone(raw.done), "the EVAL is answered")
+	nd.Cover("clusterdown-handled")
+}
